@@ -236,7 +236,7 @@ Keys == {
   Select(<<IP(<<PIdx(0)>>)>>, <<OP(C)>>), Select(<<IP(<<PIdx(1)>>), IP(<<PIdx(0)>>)>>, <<OP(C), OP(D)>>),
   Apply("inc", <<IP(<<PIdx(1)>>)>>, <<OP(SELF)>>), Filter("odd", <<IP(<<PIdx(0)>>)>>),
   Assign(<<OP(<<PKey("l"), PIdx(0)>>)>>, "inc", <<IP(A)>>), Apply("swap", <<IP(A), IP(B)>>, <<OP(<<PIdx(0)>>), OP(<<PIdx(1)>>)>>),
-  Select(<<IP(<<PKey("l"), PIdx(0)>>)>>, <<OP(C)>>) }
+  Select(<<IP(<<PKey("l"), PIdx(0)>>)>>, <<OP(C)>>), Select(<<IP(A)>>, <<OP(<<PIdx(0)>>)>>), Assign(<<OP(<<PIdx(0)>>)>>, "inc", <<IP(<<PIdx(1)>>)>>) }
 Fail == {
   Apply("failodd", <<IP(A)>>, <<OP(C)>>), Assign(<<OP(C)>>, "failodd", <<IP(A)>>), Assign(<<OP(D)>>, "fail3", <<IP(B)>>),
   Filter("failodd", <<IP(A)>>), Apply("fail3", <<IP(A)>>, <<OP(SELF)>>),
